@@ -1,14 +1,14 @@
 #!/bin/bash
 # usage: seed_sweep.sh [seed dir ...]   applies every stored seeded change to /repo in turn, runs the quick check of the property it breaks,
 # reverts, and writes /verif/seeded/RESULTS.tsv (seed, property, outcome). Evidence files are refreshed from the clean tree at the end.
-cd /repo && git diff --quiet || { echo "/repo not clean"; exit 2; }
+cd /repo && [ -z "$(git status --porcelain)" ] || { echo "/repo not clean"; exit 2; }
 out=/verif/seeded/RESULTS.tsv; : > $out.tmp
 seeds=${@:-$(ls /verif/seeded | grep -E '^C[0-9]+-[0-9]+$' | sort -V)}
 for s in $seeds; do
   c=${s%-*}
   git -C /repo apply /verif/seeded/$s/patch.diff || { echo -e "$s\t$c\tpatch-does-not-apply" >> $out.tmp; continue; }
   r=$(cd /verif && ./check $c quick 2>&1 | grep -E "^VIOLATION|^OK" | head -1)
-  git -C /repo checkout -- .
+  git -C /repo checkout -- . && git -C /repo clean -fdq src static-metric proto
   case "$r" in
     *no-failing-input-found*) o="detected (broken proof/correspondence, no-failing-input-found)";;
     VIOLATION*) o="detected (failing input / schedule / history)";;
